@@ -395,16 +395,18 @@ def run(report: Report, tier: str, only: Optional[str] = None) -> None:
     quick = tier == 'quick'
     maxlen = 3 if quick else 4
     skels: List[Tuple[str, ...]] = []
-    for n in range(1, maxlen + 1):
+    for n in range(1, min(maxlen, 3) + 1):
         skels += list(itertools.product(KINDS, repeat=n))
+    if maxlen >= 4:
+        # length 4: without the `f;` statement form (it differs from `f;j` only in the default jump, covered at length <= 3)
+        skels += list(itertools.product([k_ for k_ in KINDS if k_ != 'fjn'], repeat=4))
     skels += CURATED
     combos = [(16, 1), (64, 3)] if quick else [(8, 0), (16, 1), (32, 2), (64, 3), (16, 2)]
     cfgs = []
     for sk in skels:
-        long_ = len(sk) >= 3
-        for w, v in combos:
-            if quick and long_ and len(sk) == 3 and (hash(sk) + w) % 2 and sk not in CURATED:
-                pass
+        for ci, (w, v) in enumerate(combos):
+            if len(sk) == 4 and sk not in CURATED and ci != sum(map(ord, ''.join(sk))) % len(combos):
+                continue            # length 4: one width/version pair per sequence (rotating over the five pairs)
             cfgs.append((sk, w, v))
     if quick:
         # all sequences up to length 2 at both combos; length 3 + curated alternate between the two combos (deterministic)
@@ -412,7 +414,7 @@ def run(report: Report, tier: str, only: Optional[str] = None) -> None:
                 (sum(map(ord, ''.join(sk))) % 2 == (0 if w == 16 else 1))]
     if only:
         cfgs = [c for c in cfgs if only in f"{'-'.join(c[0])}/w{c[1]}/v{c[2]}"]
-    report.bounds.update({'skeletons': f'every sequence of length <= {maxlen} over {KINDS} + {len(CURATED)} curated longer ones; every '
+    report.bounds.update({'skeletons': f'every sequence of length <= {min(maxlen, 3)} over {KINDS}' + (' + every sequence of length 4 without fjn (one width/version pair each)' if maxlen >= 4 else '') + f' + {len(CURATED)} curated longer ones; every '
                                        'statement carries a label and the program ends with one op per label jumping to it',
                           'symbolic': 'op words (any value in [0,2^w)), pad alignment [1,4], reserve size {0,2,4} words, segment address '
                                       '(2 candidates per segment), 3 bits of every wflip value (bit 0, 1, w-1); the layout operands are '
